@@ -712,7 +712,38 @@ func c08min(a, b int) int {
 // scenario builds one read pair; perfect != 0 iff the reads are error-free pieces of frag in standard geometry
 func (g *c08Gen) scenario(ev *c08Event) (a, b []byte) {
 	small := g.rng.Intn(3) > 0
-	fam := g.rng.Intn(16)
+	fam := g.rng.Intn(17)
+	if fam == 16 {
+		// a run of inserted bases (1-4) in one read a few bases after the start of the overlap, everything else
+		// error-free: with a small delta the partial alignment of the fast mode begins with a paid run
+		la, lb := 40+g.rng.Intn(60), 40+g.rng.Intn(60)
+		o := 25 + g.rng.Intn(c08min(la, lb)-24)
+		frag := g.randSeq(la + lb - o)
+		ins := g.randSeq(1 + g.rng.Intn(4))
+		at := 8 + g.rng.Intn(5)
+		x, y := append([]byte{}, frag[:la]...), append([]byte{}, frag[len(frag)-lb:]...)
+		if g.rng.Intn(2) == 0 {
+			k := la - o + at // position in A of the overlap start + at
+			if k > len(x) {
+				k = len(x)
+			}
+			x = append(append(append([]byte{}, x[:k]...), ins...), x[k:]...)
+		} else {
+			k := at
+			if k > len(y) {
+				k = len(y)
+			}
+			y = append(append(append([]byte{}, y[:k]...), ins...), y[k:]...)
+		}
+		ev.Perfect = 0
+		ev.Frag = []string{}
+		if g.rng.Intn(2) == 0 {
+			ev.Sc = "insertion_after_overlap_start_left"
+			return x, y
+		}
+		ev.Sc = "insertion_after_overlap_start_right"
+		return y, x
+	}
 	pSub := []float64{0, 0.005, 0.02, 0.1}[g.rng.Intn(4)]
 	pAmb := []float64{0, 0, 0.01, 0.05}[g.rng.Intn(4)]
 	pIndel := []float64{0, 0, 0.005, 0.03}[g.rng.Intn(4)]
@@ -870,6 +901,9 @@ func (g *c08Gen) newEvent() *c08Event {
 	ev.Fast = g.rng.Intn(2)
 	ev.Rel = g.rng.Intn(2)
 	ev.Delta = []int{0, 1, 5, 5, 10, 50}[g.rng.Intn(6)]
+	if strings.HasPrefix(ev.Sc, "insertion_after_overlap_start") {
+		ev.Delta = g.rng.Intn(3) // smaller than the inserted run most of the time
+	}
 	ev.Gap10 = []int{20, 20, 20, 10, 5, 1, 40}[g.rng.Intn(7)]
 	ev.Scale10 = []int{10, 10, 10, 5, 20}[g.rng.Intn(5)]
 	ev.Minov = []int{1, 5, 10, 20, 20}[g.rng.Intn(5)]
